@@ -70,7 +70,11 @@ func c02Type1(c *h.Ctx, n int) {
 		kid := iss.TokenKeyID()
 		chal, nonce := rnd(c, 20), rnd(c, 32)
 		client := type1.NewBasicPrivateClient()
-		st, err := client.CreateTokenRequest(chal, nonce, kid, iss.TokenKey())
+		chalA, nonceA, kidA := clone(chal), clone(nonce), clone(kid)
+		st, err := client.CreateTokenRequest(chalA, nonceA, kidA, iss.TokenKey())
+		if r%2 == 1 { // the caller refills / wipes the buffers it passed before the response arrives
+			scribble(chalA, nonceA, kidA)
+		}
 		st2, err2 := client.CreateTokenRequest(chal, rnd(c, 32), kid, iss.TokenKey()) // another request, same key
 		if err != nil || err2 != nil {
 			c.Violation("honest request creation fails", nil)
@@ -185,7 +189,11 @@ func c02Type2(c *h.Ctx, keys []*rsa.PrivateKey, flips int) {
 		kid := iss.TokenKeyID()
 		chal, nonce := rnd(c, 20), rnd(c, 32)
 		client := type2.NewBasicPublicClient()
-		st, err := client.CreateTokenRequest(chal, nonce, kid, &key.PublicKey)
+		chalA, nonceA, kidA := clone(chal), clone(nonce), clone(kid)
+		st, err := client.CreateTokenRequest(chalA, nonceA, kidA, &key.PublicKey)
+		if ki%2 == 1 || len(keys) == 1 {
+			scribble(chalA, nonceA, kidA)
+		}
 		st2, err2 := client.CreateTokenRequest(chal, rnd(c, 32), kid, &key.PublicKey)
 		if err != nil || err2 != nil {
 			c.Violation("honest request creation fails", nil)
@@ -264,7 +272,11 @@ func c02Type3(c *h.Ctx, n int, flips int) {
 		envB := newT3(c, r+1, rnd(c, 32), map[string][]byte{"origin.example": rnd(c, 48)})
 		client := type3.NewRateLimitedClientFromSecret(rnd(c, 48))
 		chal, nonce := rnd(c, 20), rnd(c, 32)
-		st, err := env.request(client, chal, nonce, rnd(c, 48), "origin.example")
+		chalA, nonceA, blindA := clone(chal), clone(nonce), rnd(c, 48)
+		st, err := env.request(client, chalA, nonceA, blindA, "origin.example")
+		if r%2 == 1 {
+			scribble(chalA, nonceA, blindA)
+		}
 		st2, err2 := env.request(client, chal, rnd(c, 32), rnd(c, 48), "origin.example")
 		if err != nil || err2 != nil {
 			c.Violation("honest request creation fails", nil)
@@ -362,14 +374,23 @@ func c02Type5(c *h.Ctx, sizes []int, flipAll bool) {
 	iss, issB := type5.NewBatchedPrivateIssuer(sk), type5.NewBatchedPrivateIssuer(skB)
 	kid := iss.TokenKeyID()
 	srv := oprf.NewVerifiableServer(oprf.SuiteRistretto255, sk)
-	for _, n := range sizes {
+	for si, n := range sizes {
 		chal := rnd(c, 20)
-		var nonces [][]byte
+		var nonces, noncesA [][]byte
 		for j := 0; j < n; j++ {
 			nonces = append(nonces, rnd(c, 32))
+			noncesA = append(noncesA, clone(nonces[j]))
 		}
 		client := type5.NewBatchedPrivateClient()
-		st, err := client.CreateTokenRequest(chal, nonces, kid, iss.TokenKey())
+		chalA, kidA := clone(chal), clone(kid)
+		st, err := client.CreateTokenRequest(chalA, noncesA, kidA, iss.TokenKey())
+		if si%2 == 1 || len(sizes) == 1 {
+			scribble(chalA, kidA)
+			scribble(noncesA...)
+			for j := range noncesA {
+				noncesA[j] = nil
+			}
+		}
 		var nonces2 [][]byte
 		for j := 0; j < n; j++ {
 			nonces2 = append(nonces2, rnd(c, 32))
